@@ -570,6 +570,10 @@ type InvSpec struct {
 	NonceLen int        `json:"nonce_len,omitempty"`
 	Meta     []MetaSpec `json:"meta,omitempty"`
 	Cause    bool       `json:"cause,omitempty"`
+	// ArgsVia: which public route the arguments take into the constructor: "" one WithArgument
+	// per entry; "args" args.New + Add + WithArguments; "builder" args.NewBuilder; "include"
+	// Include from another Args; "split" half through WithArguments, half through WithArgument
+	ArgsVia string `json:"args_via,omitempty"`
 }
 
 func (s InvSpec) argsVal() Val { return Val{K: "map", M: s.Args} }
